@@ -347,6 +347,11 @@ func bases(server string) []base {
 			base{method: "COPY", path: p, hdr: [][2]string{{"Destination", "/dest"}, {"Overwrite", "T"}, {"Depth", "infinity"}}, kind: "copymove"},
 			base{method: "MOVE", path: p, hdr: [][2]string{{"Destination", "http://dav.example/dest"}, {"Overwrite", "F"}}, kind: "copymove"},
 			base{method: "PROPPATCH", path: p, hdr: [][2]string{{"Content-Type", xmlCT}}, doc: vx.El(vdav.NSDAV, "propertyupdate", vx.El(vdav.NSDAV, "set", vx.El(vdav.NSDAV, "prop", vx.El(vdav.NSDAV, "displayname", vx.T("n"))))), kind: "proppatch"},
+			// set and remove instructions interleaved, several properties each, foreign and no-value ones
+			base{method: "PROPPATCH", path: p, hdr: [][2]string{{"Content-Type", "text/xml"}}, doc: vx.El(vdav.NSDAV, "propertyupdate",
+				vx.El(vdav.NSDAV, "remove", vx.El(vdav.NSDAV, "prop", vx.El("urn:x", "gone"), vx.El(vdav.NSDAV, "getcontentlanguage"))),
+				vx.El(vdav.NSDAV, "set", vx.El(vdav.NSDAV, "prop", vx.El(vdav.NSDAV, "displayname", vx.T("n")), vx.El("urn:x", "kept", vx.El("urn:x", "inner", vx.T("v"))), vx.El(vdav.NSCal, "calendar-description", vx.T("d")))),
+				vx.El(vdav.NSDAV, "remove", vx.El(vdav.NSDAV, "prop", vx.El(vdav.NSCard, "addressbook-description")))), kind: "proppatch"},
 		)
 	}
 	switch server {
